@@ -752,6 +752,147 @@ def override_stage(chk, texts):
     chk.obligation("corr:override", "correspondence", ok)
 
 
+# ------------------------------------------------------------------ the keyring layer: keyring.fetch() against a fake Secret Service
+
+
+def keyring_stage(chk):
+    """mopidy.config.keyring.fetch() driven through its branches by a fake python-dbus module and a fake
+    freedesktop Secret Service (no dbus, no session bus, service not running, OpenSession refused, nothing
+    stored, unlocked items, locked items that unlock without a prompt, locked items that need a prompt, and
+    mixtures).  Expectation: every secret the service can hand over without a prompt is returned, and
+    config.load puts it above the files and below the command line."""
+    import types as _t
+
+    from mopidy import config as C
+    from mopidy.config import keyring as K
+
+    class DBusException(Exception):
+        pass
+
+    def make(sc):
+        state = {"unlock_calls": 0, "dismissed": 0, "items": {f"/item/{i}": list(it) for i, it in enumerate(sc["items"])}}
+
+        class Service:
+            def OpenSession(self, algorithm, value):  # noqa: N802
+                if sc.get("open_session_fails"):
+                    raise DBusException("refused")
+                return ("", "/session/1")
+
+            def SearchItems(self, attributes):  # noqa: N802
+                its = state["items"]
+                return ([p for p in its if not its[p][3]], [p for p in its if its[p][3]])
+
+            def Unlock(self, paths):  # noqa: N802
+                state["unlock_calls"] += 1
+                if sc["unlock"] == "prompt":
+                    return ([], "/prompt/1")
+                for p in paths:
+                    state["items"][p][3] = False
+                return (list(paths), "/")
+
+            def GetSecrets(self, items, session, byte_arrays=False):  # noqa: N802
+                assert all(not state["items"][p][3] for p in items), "secret of a locked item requested"
+                return {p: (session, b"", state["items"][p][2], "text/plain") for p in items}
+
+        class Props:
+            def __init__(self, path):
+                self.path = path
+
+            def Get(self, interface, name):  # noqa: N802
+                it = state["items"][self.path]
+                return {"service": "mopidy", "section": it[0], "key": it[1]}
+
+        class Prompt:
+            def Dismiss(self):  # noqa: N802
+                state["dismissed"] += 1
+
+        class Bus:
+            def name_has_owner(self, name):
+                return sc.get("has_owner", True)
+
+            def get_object(self, name, path):
+                return path
+
+        def interface(obj, iface):
+            if iface.endswith("Secret.Service"):
+                return Service()
+            if iface.endswith("DBus.Properties"):
+                return Props(obj)
+            return Prompt()
+
+        def session_bus():
+            if sc.get("bus_fails"):
+                raise DBusException("no session bus")
+            return Bus()
+
+        d = _t.ModuleType("dbus")
+        d.String = lambda value, variant_level=0: value
+        d.exceptions = _t.SimpleNamespace(DBusException=DBusException)
+        d.SessionBus = session_bus
+        d.Interface = interface
+        return d, state
+
+    secrets = [("audio", "mixer", b"kr-mixer"), ("proxy", "password", b"p\xffw"), ("alpha", "a", b""), ("audio", "output", b"kr-out")]
+    scenarios = [{"name": "no-dbus", "dbus": False, "items": [], "unlock": "noprompt"},
+                 {"name": "no-session-bus", "bus_fails": True, "items": [(*secrets[0], False)], "unlock": "noprompt"},
+                 {"name": "service-not-running", "has_owner": False, "items": [(*secrets[0], False)], "unlock": "noprompt"},
+                 {"name": "open-session-refused", "open_session_fails": True, "items": [(*secrets[0], False)], "unlock": "noprompt"}]
+    for nu in range(3):
+        for nl in range(3):
+            for unlock in ("noprompt", "prompt"):
+                if nl == 0 and unlock == "prompt":
+                    continue
+                items = [(*secrets[i], False) for i in range(nu)] + [(*secrets[nu + j], True) for j in range(nl) if nu + j < len(secrets)]
+                scenarios.append({"name": f"unlocked={nu},locked={len(items) - nu},unlock={unlock}", "items": items, "unlock": unlock})
+    saved = (K.dbus, K.EMPTY_STRING)
+    try:
+        for sc in scenarios:
+            infra_down = sc.get("dbus") is False or sc.get("bus_fails") or sc.get("has_owner") is False or sc.get("open_session_fails")
+            want = set() if infra_down else {(s_, k_, v_) for s_, k_, v_, locked in sc["items"] if not locked or sc["unlock"] == "noprompt"}
+            if sc.get("dbus") is False:
+                K.dbus, state = None, {}
+            else:
+                K.dbus, state = make(sc)
+                K.EMPTY_STRING = ""
+            kind = ("mixed" if any(i[3] for i in sc["items"]) and not all(i[3] for i in sc["items"]) else
+                    "locked-only" if sc["items"] and all(i[3] for i in sc["items"]) else "unlocked-only" if sc["items"] else "empty")
+            case = {"stage": "keyring", "scenario": sc["name"]}
+            chk.count(1, nontrivial_key="keyring:" + sc["name"])
+            chk.dist("keyring:scenarios")
+            try:
+                got = K.fetch()
+            except Exception as e:  # noqa: BLE001
+                chk.monitor_failure("keyring_fetch", {"scenario": kind, "unlock": sc["unlock"], "what": "exception"},
+                                    f"keyring.fetch() raised {type(e).__name__} in scenario {sc['name']}", case)
+                continue
+            gotset = {(a, b, bytes(c)) for a, b, c in got}
+            if gotset != want:
+                chk.monitor_failure("keyring_fetch", {"scenario": kind, "unlock": sc["unlock"], "what": "secrets"},
+                                    f"keyring.fetch() in scenario {sc['name']}: returned {sorted(gotset)}, the service hands over "
+                                    f"without a prompt {sorted(want)}", case)
+                continue
+            # the fetched secrets sit above the files and below the command line
+            if want and not infra_down:
+                K.dbus, state = make(sc)
+                captured = {}
+                real_validate = C._validate
+                C._validate = lambda raw, schemas, _c=captured: (_c.setdefault("raw", raw), {})
+                try:
+                    C.load([], [], ["[audio]\nmixer = ext-default\noutput = ext-default\n[alpha]\na = ext-default\n"],
+                           [("audio", "output", "cli")])
+                finally:
+                    C._validate = real_validate
+                raw = canon_raw(captured.get("raw", {}))
+                for s_, k_, v_ in want:
+                    exp = "cli" if (s_, k_) == ("audio", "output") else v_.decode(errors="surrogateescape")
+                    if raw.get(s_, {}).get(k_) != exp:
+                        chk.monitor_failure("keyring_layer", {"scenario": kind},
+                                            f"{s_}/{k_}: effective raw value {raw.get(s_, {}).get(k_)!r}, expected {exp!r} "
+                                            "(keyring above defaults/files, below the command line)", case)
+    finally:
+        K.dbus, K.EMPTY_STRING = saved
+
+
 # ------------------------------------------------------------------ main stage
 
 
@@ -1049,3 +1190,5 @@ def run(chk):
     if not chk.replay_case:
         ini_stage(chk, RENDERED)
         override_stage(chk, OVERRIDE_TEXTS)
+    if not chk.replay_case or chk.replay_case.get("stage") == "keyring":
+        keyring_stage(chk)
